@@ -24,7 +24,11 @@ RULE = ("(a) events.get_key on the decoder's complete one-step tree: every pendi
         "byte characters and stray bytes; (d) events.decodable on all 1- and 2-byte sequences and boundary 3/4-byte ones; "
         "(e) could_be_unfinished_utf8 / _char on every first byte x lengths 0..7. non-trivial = at least one byte; "
         "distinct = distinct (kind, encoding, bytes/tokens)")
+GENERATORS = ("gen/gen_pure.py",)
+PURE_HELPERS = ('could_be_unfinished_utf8',)
 TRUSTED = [
+    "translator gen/gen_pure.py (dumps the Python AST of could_be_unfinished_utf8 node by node into coq/Gen/Pure.v) and the reference "
+    "semantics of that Python subset coq/Spec/PyMini.v, itself run against CPython on enumerated arguments in every check",
     "Coq 8.16.1 kernel incl. vm_compute (no native_compute); Print Assumptions: closed under the global context",
     "translator gen/gen_tables.py (CURTSIES_NAMES, CURSES_NAMES, KEYMAP_PREFIXES, MAX_KEYPRESS_SIZE of the live modules)",
     "reference notions coq/Spec/KeySpec.v (growable = proper prefix of an ESC-initiated table sequence, name_ok, prop_ok, stream_ok)",
